@@ -15,9 +15,17 @@ C32 — model of the output handling of c2patool (`cli/src/main.rs`, `fn main` a
 * What the code cannot decide by itself (is the asset parseable, does signing succeed, can
   the remote manifest be fetched…) are Boolean *facts* in the configuration; theorems
   quantify over them.
-* Paths are component lists without `..`; `.` components are dropped when resolving, a
-  leading `.` is significant for `PathBuf ==` (so `./a.jpg` and `a.jpg` are different paths
-  for the same file: the "alias" case).
+* Path *strings* are component lists (`RawPath`); the `std::path` string functions
+  (`file_name`, `extension`, `with_extension`, `PathBuf ==`) work on them lexically, exactly
+  like Rust. Which *location* the operating system reaches through a path string is the
+  function `Cfg.rho` — a fact about the world like the others. Its default is `resolve`
+  (drop `.` components); the line protocol can override it per path string, which is how
+  aliases are expressed: `./a.jpg`, `sub/../a.jpg`, `/abs/dir/a.jpg`, `dirlink/a.jpg` all are
+  different strings (`PathBuf !=`) for the location `[a.jpg]`. The theorems quantify over
+  every `rho`, i.e. over every possible aliasing between PATH, `-o` and the sidecar path.
+  (Fidelity limits: a directory reached through `rho` has its children and its parent at the
+  list level, so an override must name a path whose parent directory exists; final-component
+  symlinks are entries of their own — `exists` follows them, `remove_file` does not.)
 -/
 namespace C2pa.C32
 
@@ -183,8 +191,6 @@ def withExtension (p : RawPath) (ext : String) : RawPath :=
   | none => p
   | some n => (resolve p).dropLast ++ [String.ofList (splitAtDot n.toList).1 ++ "." ++ ext]
 
-/-- `Path::exists` -/
-def pExists (st : St) (p : RawPath) : Bool := locExists st (resolve p)
 
 /-! ### configuration -/
 
@@ -227,6 +233,11 @@ structure Cfg where
   hasManifest : Bool := true  -- `Reader::with_file(PATH)` finds a manifest store
   reportOk : Bool := true     -- the closing `Reader::with_file(output)` succeeds
   fragOk : Bool := true       -- every fragment is one moof + one mdat without Merkle box
+  /-- the location a path string leads to (default: drop `.` components) -/
+  rho : RawPath → Loc := resolve
+
+/-- `Path::exists` -/
+def pExists (cfg : Cfg) (st : St) (p : RawPath) : Bool := locExists st (cfg.rho p)
 
 inductive Outcome
   | ok | readonly | usage | needPath | exists | typeMismatch | noFilename | noExtension
@@ -266,9 +277,9 @@ def signInPlace (cfg : Cfg) (src out : Loc) (c : Content) (st : St) : Outcome ×
 /-- `if output.exists() { if force && output != path { remove_file } else if !force { bail } }`:
 `none` = bail "exists", `some none` = remove_file failed, `some (some st)` = go on -/
 def outputCheck (cfg : Cfg) (path output : RawPath) (st : St) : Option (Option St) :=
-  if pExists st output then
+  if pExists cfg st output then
     if cfg.force && !pathEq output path then
-      (match removeFile (resolve output) st with
+      (match removeFile (cfg.rho output) st with
        | some s => some (some s)
        | none => some none)
     else if !cfg.force then none
@@ -280,8 +291,8 @@ def signContent (cfg : Cfg) : Content :=
 
 /-- `if *path != output { sign_file } else { sign to temp file, persist }` -/
 def signStep (cfg : Cfg) (path output : RawPath) (st : St) : Outcome × St :=
-  if !pathEq path output then signFile cfg (resolve path) (resolve output) (signContent cfg) st
-  else signInPlace cfg (resolve path) (resolve output) (signContent cfg) st
+  if !pathEq path output then signFile cfg (cfg.rho path) (cfg.rho output) (signContent cfg) st
+  else signInPlace cfg (cfg.rho path) (cfg.rho output) (signContent cfg) st
 
 /-- sidecar write and closing report -/
 def signTail (cfg : Cfg) (sc : Loc) (r : Outcome × St) : Res :=
@@ -292,7 +303,7 @@ def signTail (cfg : Cfg) (sc : Loc) (r : Outcome × St) : Res :=
 
 /-- non-fragment arm of `if let Some(output) = args.output` under a manifest definition -/
 def signBranch (cfg : Cfg) (path output : RawPath) (st : St) : Res :=
-  let sc := resolve (withExtension output "c2pa")
+  let sc := cfg.rho (withExtension output "c2pa")
   if extNormal output != extNormal path then ⟨.typeMismatch, st⟩ else
   match outputCheck cfg path output st with
   | none => ⟨.exists, st⟩
@@ -351,8 +362,8 @@ def initLoop (out : Loc) : List Rend → St → Bool × St
 
 /-- `fragment` arm incl. `sign_fragmented` (with the existence check of fix C32-fragment-init) -/
 def fragBranch (cfg : Cfg) (output : RawPath) (glob : Bool) (rends : List Rend) (st : St) : Res :=
-  let out := resolve output
-  if pExists st output && !isDir st out then ⟨.fragFile, st⟩ else
+  let out := cfg.rho output
+  if pExists cfg st output && !isDir st out then ⟨.fragFile, st⟩ else
   if !glob then ⟨.fragGlob, st⟩ else
   if !cfg.force && rends.any (fun r => match initDest out r with
       | some d => locExists st d | none => false) then ⟨.exists, st⟩ else
@@ -370,11 +381,11 @@ def fragBranch (cfg : Cfg) (output : RawPath) (glob : Bool) (rends : List Rend) 
 
 /-- `else if let Some(output) = args.output` (report / ingredient folder) -/
 def folderBranch (cfg : Cfg) (path output : RawPath) (st : St) : Res :=
-  let out := resolve output
+  let out := cfg.rho output
   -- folder_mode_output_path_ok
-  if pExists st output && !isDir st out then ⟨.notFolder, st⟩ else
+  if pExists cfg st output && !isDir st out then ⟨.notFolder, st⟩ else
   let chk : Option (Option St) :=
-    if pExists st output then
+    if pExists cfg st output then
       if cfg.force then (match rmTree out st with | some s => some (some s) | none => some none)
       else none
     else some (some st)
@@ -387,7 +398,7 @@ def folderBranch (cfg : Cfg) (path output : RawPath) (st : St) : Res :=
     | some st2 =>
       if cfg.ingredient then
         if !cfg.fmtOk then ⟨.fail, st2⟩ else
-        if !isFile st2 (resolve path) then ⟨.fail, st2⟩ else
+        if !isFile st2 (cfg.rho path) then ⟨.fail, st2⟩ else
         if !cfg.signOk then ⟨.fail, st2⟩ else
         match writeFile (out ++ ["*"]) .res st2 with
         | none => ⟨.fail, st2⟩
@@ -396,7 +407,7 @@ def folderBranch (cfg : Cfg) (path output : RawPath) (st : St) : Res :=
           | none => ⟨.fail, st3⟩
           | some st4 => ⟨.ok, st4⟩
       else
-        if !isFile st2 (resolve path) then ⟨.fail, st2⟩ else
+        if !isFile st2 (cfg.rho path) then ⟨.fail, st2⟩ else
         if !cfg.hasManifest then ⟨.fail, st2⟩ else
         match writeFile (out ++ ["*"]) .res st2 with
         | none => ⟨.fail, st2⟩
@@ -435,14 +446,15 @@ def run (cfg : Cfg) (fs : FS) : Res := runSt cfg { fs := fs, acts := [] }
 
 /-! ### declared outputs -/
 
-def outLoc (cfg : Cfg) : Loc := resolve (cfg.output.getD [])
-def sidecarLoc (cfg : Cfg) : Loc := resolve (withExtension (cfg.output.getD []) "c2pa")
+def outLoc (cfg : Cfg) : Loc := cfg.rho (cfg.output.getD [])
+def sidecarLoc (cfg : Cfg) : Loc := cfg.rho (withExtension (cfg.output.getD []) "c2pa")
 
 /-! ### line protocol
 
 `C32 run path=<p|-> out=<p|-> msrc=<n|f|c> flags=<letters|-> cmd=<-|trust|frag:<0|1>:<rend;…>>
-     facts=<letters|-> fs=<path:f|path:d,…>`
-paths are `/`-separated; rend = `<dir|->|<init>|<frag+frag…>`.
+     facts=<letters|-> [alias=<path>><loc>;…] fs=<path:f|path:d,…>`
+paths are `/`-separated; rend = `<dir|->|<init>|<frag+frag…>`; `alias` lists the path strings
+whose location is not the lexical one (key compared after dropping `.` components).
 Reply: `<outcome> <path:change,…|->` with the net change of every location (sorted). -/
 
 def parsePath (s : String) : RawPath := (s.splitOn "/").filter (· != "")
@@ -461,6 +473,18 @@ def parseCmd (s : String) : Cmd :=
 
 def has (s : String) (c : Char) : Bool := s.toList.contains c
 
+def parseAlias (s : String) : List (RawPath × Loc) :=
+  if s == "-" || s == "" then [] else
+  (s.splitOn ";").filterMap fun e =>
+    match e.splitOn ">" with
+    | [k, v] => some (resolve (parsePath k), resolve (parsePath v))
+    | _ => none
+
+def rhoOf (al : List (RawPath × Loc)) (p : RawPath) : Loc :=
+  match al.find? (fun e => e.1 == resolve p) with
+  | some e => e.2
+  | none => resolve p
+
 def parseCfg (toks : List String) : Cfg :=
   let p := field toks "path"
   let o := field toks "out"
@@ -474,7 +498,8 @@ def parseCfg (toks : List String) : Cfg :=
     ingredient := has fl 'i', detailed := has fl 'd', early := has fl 'e'
     cmd := parseCmd (field toks "cmd")
     fmtOk := has fa 'F', signOk := has fa 'S', setupOk := has fa 'U'
-    hasManifest := has fa 'M', reportOk := has fa 'R', fragOk := has fa 'G' }
+    hasManifest := has fa 'M', reportOk := has fa 'R', fragOk := has fa 'G'
+    rho := rhoOf (parseAlias (field toks "alias")) }
 
 def parseFs (s : String) : List (Loc × Node) :=
   if s == "-" || s == "" then [] else
@@ -531,7 +556,7 @@ def handle (toks : List String) : String :=
     let lines := univ.foldl (fun acc p =>
       if p.getLast? == some "*" then acc else
       -- the source replaced by a byte-identical copy of itself is not observable
-      if some p == cfg.path.map resolve && r.st.fs p == .file .copy && isFile ⟨fs0, []⟩ p then acc else
+      if some p == cfg.path.map cfg.rho && r.st.fs p == .file .copy && isFile ⟨fs0, []⟩ p then acc else
       match changeStr (fs0 p) (r.st.fs p) with
       | some c => insertSorted (locStr p ++ ":" ++ c) acc
       | none => acc) []
